@@ -27,6 +27,30 @@ pub struct Scenario {
     /// one endpoint turns evil: it replaces the cleartext payload of one of its packets (C04)
     #[serde(default)]
     pub evil: Option<EvilCfg>,
+    /// one side's own transport parameters are rewritten on their way into its TLS session (C14)
+    #[serde(default)]
+    pub tp: Option<TpRewrite>,
+}
+
+/// which side's own transport parameters are rewritten, and how (applied in order to the block the endpoint encoded)
+#[derive(Clone, Debug, Hash, PartialEq, Eq, Serialize, Deserialize)]
+pub struct TpRewrite {
+    pub side: Side,
+    pub ops: Vec<TpOp>,
+}
+
+#[derive(Clone, Debug, Hash, PartialEq, Eq, Serialize, Deserialize)]
+pub enum TpOp {
+    /// drop every occurrence of the parameter
+    Remove { id: u64 },
+    /// replace the value of the first occurrence, or append the parameter when absent
+    Set { id: u64, value: Vec<u8> },
+    /// append another occurrence (duplicates are possible)
+    Append { id: u64, value: Vec<u8> },
+    /// raw bytes after the last parameter
+    Raw(Vec<u8>),
+    /// replace the whole block by these bytes
+    Block(Vec<u8>),
 }
 
 #[derive(Clone, Copy, Debug, Hash, PartialEq, Eq, Serialize, Deserialize)]
